@@ -307,6 +307,7 @@ type ctlOpts struct {
 }
 
 type buildOpts struct {
+	Then        string // second target built on the SAME loaded Project right after Target (nil options), as the REPL does
 	Target      string
 	Always, Dry bool
 	GC          bool
@@ -369,6 +370,13 @@ func buildRaw(root string, v Vars, o buildOpts) *buildResult {
 			panic(perr)
 		}
 		res.RunErr = proj.Run(l, &dawn.RunOptions{Always: o.Always, DryRun: o.Dry})
+		if o.Then != "" {
+			// a second run on the same Project value, without reloading
+			l2, _ := label.Parse(o.Then)
+			if err := proj.Run(l2, nil); err != nil && res.RunErr == nil {
+				res.RunErr = err
+			}
+		}
 	}
 	res.finish = func() {
 		rec.mu.Lock()
